@@ -467,6 +467,17 @@ func (t *termer) call(c *ssa.Call, ctx *Ctx) *Term {
 		name = ifaceMethodName(cc)
 		args = append(args, t.term(cc.Value, ctx))
 	} else if fn := cc.StaticCallee(); fn != nil {
+		// a trivial getter (returns a field of its receiver/argument, possibly under a lock)
+		// stands for that field: x.GetLastState() and x.lastState are the same value
+		if v := trivialGetterValue(fn); v != nil && (ctx == nil || !ctx.has(fn)) {
+			d := 0
+			if ctx != nil {
+				d = ctx.Depth + 1
+			}
+			if d < 6 {
+				return t.term(v, &Ctx{Parent: ctx, Site: c, Fn: fn, Depth: d})
+			}
+		}
 		name = genericName(shortName(fnName(fn)))
 	} else if b, ok := cc.Value.(*ssa.Builtin); ok {
 		name = b.Name()
@@ -781,4 +792,86 @@ func (p *Prog) Alternatives(t *Term, depth int) []*Term {
 	}
 	walk(t, depth)
 	return out
+}
+
+var getterCache = map[*ssa.Function]ssa.Value{}
+var getterSeen = map[*ssa.Function]bool{}
+
+// trivialGetterValue: fn is a repository function with one result whose every return hands back
+// the same field path of one of its parameters, and which calls nothing but mutex operations.
+// Returns the returned value (to be rendered with the parameters bound to the call), else nil.
+func trivialGetterValue(fn *ssa.Function) ssa.Value {
+	if getterSeen[fn] {
+		return getterCache[fn]
+	}
+	getterSeen[fn] = true
+	if fn.Blocks == nil || fn.Signature.Results().Len() != 1 || len(fn.Params) == 0 || len(fn.Params) > 1 {
+		return nil
+	}
+	// only the node's own package: the accessors of the wire types (Header.Height, …) are API
+	// names that the rules refer to as such
+	pk := fnPkg(fn)
+	if pk == nil || pk.Pkg.Path() != rootPath+"/block" {
+		return nil
+	}
+	var ret ssa.Value
+	for _, b := range fn.Blocks {
+		if b.Comment == "recover" {
+			continue // the landing pad of a function with defers: reached only after a panic
+		}
+		for _, in := range b.Instrs {
+			switch x := in.(type) {
+			case *ssa.Call:
+				if !strings.HasPrefix(commonName(x.Common()), "(*sync.") {
+					return nil
+				}
+			case *ssa.Defer:
+				if !strings.HasPrefix(commonName(x.Common()), "(*sync.") {
+					return nil
+				}
+			case *ssa.Store:
+				if _, local := x.Addr.(*ssa.Alloc); !local {
+					return nil // (a store into the spilled result slot of a function with defers is fine)
+				}
+			case *ssa.Go, *ssa.Send, *ssa.Select, *ssa.MapUpdate, *ssa.Panic:
+				return nil
+			case *ssa.Return:
+				v := spilledResult(x, 0)
+				if ret != nil && ret != v {
+					return nil
+				}
+				ret = v
+			}
+		}
+	}
+	if ret == nil {
+		return nil
+	}
+	// the value is a field path of the parameter: *(&p.f) or (p.f) or *(&(*(&p.f)).g)
+	v := ret
+	depth := 0
+	for depth < 6 {
+		switch x := v.(type) {
+		case *ssa.UnOp:
+			if x.Op != token.MUL {
+				return nil
+			}
+			v = x.X
+		case *ssa.FieldAddr:
+			v = x.X
+			depth++
+		case *ssa.Field:
+			v = x.X
+			depth++
+		case *ssa.Parameter:
+			if depth == 0 {
+				return nil
+			}
+			getterCache[fn] = ret
+			return ret
+		default:
+			return nil
+		}
+	}
+	return nil
 }
